@@ -438,3 +438,161 @@ Proof.
   destruct (digits_decode dbg p digits Hp Hd) as [d' [C L]]. rewrite C.
   rewrite (crate_decode_d85 dbg d' (check_d85 _ _ _ _ C)). rewrite L. reflexivity.
 Qed.
+
+(* ---------- corrupt encodings ---------- *)
+(* no EOD marker *)
+Lemma strip_eod_some s body : strip_eod s = Some body -> s = body ++ [126; 62]%N.
+Proof.
+  unfold strip_eod. rewrite frev_rev. destruct (rev s) as [|a [|b r]] eqn:E; try discriminate.
+  destruct ((a =? 62)%N && (b =? 126)%N) eqn:T; [|discriminate]. intros H. inversion H; subst.
+  rewrite frev_rev. apply andb_true_iff in T as [Ta Tb]. apply N.eqb_eq in Ta, Tb. subst.
+  rewrite <- (rev_involutive s), E. cbn [rev]. rewrite <- app_assoc. reflexivity.
+Qed.
+
+Theorem a85_no_eod dbg data :
+  (forall body, a85_stage data <> body ++ [126; 62]%N) -> a85_decode dbg data = Err ETransform.
+Proof.
+  intros H. unfold a85_decode. destruct (strip_eod (a85_stage data)) as [body|] eqn:E; [|reflexivity].
+  exfalso. exact (H body (strip_eod_some _ _ E)).
+Qed.
+
+(* an illegal character anywhere in the body (this includes white space other than PDF's, `~`, and
+   anything after a first `~>`) *)
+Lemma check_illegal s : forall n v, (exists c, In c s /\ ~ is_d85 c /\ c <> 122%N) -> a85_check n v s = None.
+Proof.
+  induction s as [|c0 r IH]; intros n v [c [Hin [Hd Hz]]]; [contradiction|].
+  cbn [a85_check]. destruct Hin as [<- | Hin].
+  - replace (c0 =? 122)%N with false by lia. cbn [andb].
+    replace ((33 <=? c0)%N && (c0 <=? 117)%N) with false; [reflexivity|]. unfold is_d85 in Hd. lia.
+  - assert (E : forall n' v', a85_check n' v' r = None) by (intros; apply IH; exists c; auto).
+    destruct (_ && Nat.eqb n 0); [rewrite E; reflexivity|].
+    destruct (_ && _); [|reflexivity]. cbv zeta.
+    destruct (Nat.eqb _ 0); [destruct (_ <? _)%N; [reflexivity|]|]; rewrite E; reflexivity.
+Qed.
+
+Theorem a85_illegal dbg data body c :
+  a85_stage data = body ++ [126; 62]%N -> In c (strip_start_marker body) -> ~ is_d85 c -> c <> 122%N ->
+  a85_decode dbg data = Err ETransform.
+Proof.
+  intros Hs Hin Hd Hz. unfold a85_decode. rewrite Hs, strip_eod_app.
+  rewrite check_illegal; [reflexivity|]. exists c. auto.
+Qed.
+
+(* the state of the group check after a prefix *)
+Fixpoint a85_state (n : nat) (v : N) (s : bytes) : option (nat * N) :=
+  match s with
+  | [] => Some (n, v)
+  | c :: r =>
+    if (c =? 122)%N && Nat.eqb n 0 then a85_state n v r
+    else if (33 <=? c)%N && (c <=? 117)%N then
+      let v' := (v * 85 + (c - 33))%N in
+      let n' := Nat.modulo (n + 1) 5 in
+      if Nat.eqb n' 0 then (if (u32_max <? v')%N then None else a85_state 0 0%N r)
+      else a85_state n' v' r
+    else None
+  end.
+
+Lemma check_app_none s1 : forall n v n' v' s2,
+  a85_state n v s1 = Some (n', v') -> a85_check n' v' s2 = None -> a85_check n v (s1 ++ s2) = None.
+Proof.
+  induction s1 as [|c r IH]; intros n v n' v' s2 Hst Hc; cbn [a85_state] in Hst.
+  - inversion Hst; subst. exact Hc.
+  - cbn [app a85_check]. destruct (_ && Nat.eqb n 0).
+    { rewrite (IH _ _ _ _ _ Hst Hc). reflexivity. }
+    destruct (_ && _); [|discriminate]. cbv zeta in *.
+    destruct (Nat.eqb _ 0).
+    + destruct (_ <? _)%N; [reflexivity|]. rewrite (IH _ _ _ _ _ Hst Hc). reflexivity.
+    + rewrite (IH _ _ _ _ _ Hst Hc). reflexivity.
+Qed.
+
+(* [pre] consists of complete groups *)
+Definition complete (pre : bytes) : Prop := a85_state 0 0%N pre = Some (0, 0%N).
+
+(* a final group of a single character *)
+Lemma check_lone pre c : complete pre -> is_d85 c -> a85_check 0 0%N (pre ++ [c]) = None.
+Proof.
+  intros Hp Hc. apply (check_app_none pre 0 0%N 0 0%N [c] Hp).
+  rewrite check_step by exact Hc. reflexivity.
+Qed.
+
+(* a `z` inside a group *)
+Lemma check_misaligned_z pre n v post : a85_state 0 0%N pre = Some (n, v) -> n <> 0 ->
+  a85_check 0 0%N (pre ++ 122%N :: post) = None.
+Proof.
+  intros Hp Hn. apply (check_app_none pre 0 0%N n v _ Hp).
+  cbn [a85_check N.eqb Pos.eqb]. destruct n; [contradiction|]. reflexivity.
+Qed.
+
+(* a group whose value exceeds 2^32 - 1 *)
+Lemma check_too_large pre c0 c1 c2 c3 c4 post :
+  complete pre -> is_d85 c0 -> is_d85 c1 -> is_d85 c2 -> is_d85 c3 -> is_d85 c4 ->
+  (4294967295 < (c0 - 33) * 52200625 + (c1 - 33) * 614125 + (c2 - 33) * 7225 + (c3 - 33) * 85 + (c4 - 33))%N ->
+  a85_check 0 0%N (pre ++ c0 :: c1 :: c2 :: c3 :: c4 :: post) = None.
+Proof.
+  intros Hp H0 H1 H2 H3 H4 HV. apply (check_app_none pre 0 0%N 0 0%N _ Hp).
+  rewrite check_step by assumption. change (Nat.eqb (Nat.modulo (0 + 1) 5) 0) with false. cbv iota.
+  change (Nat.modulo (0 + 1) 5) with 1.
+  rewrite check_step by assumption. change (Nat.eqb (Nat.modulo (1 + 1) 5) 0) with false. cbv iota.
+  change (Nat.modulo (1 + 1) 5) with 2.
+  rewrite check_step by assumption. change (Nat.eqb (Nat.modulo (2 + 1) 5) 0) with false. cbv iota.
+  change (Nat.modulo (2 + 1) 5) with 3.
+  rewrite check_step by assumption. change (Nat.eqb (Nat.modulo (3 + 1) 5) 0) with false. cbv iota.
+  change (Nat.modulo (3 + 1) 5) with 4.
+  rewrite check_step by assumption. change (Nat.eqb (Nat.modulo (4 + 1) 5) 0) with true. cbv iota.
+  unfold u32_max. replace (_ <? _)%N with true by lia. reflexivity.
+Qed.
+
+(* a final partial group whose padded value exceeds 2^32 - 1 is rejected as well (e.g. `uu`) *)
+Lemma check_partial_too_large pre c0 c1 :
+  complete pre -> is_d85 c0 -> is_d85 c1 ->
+  (4294967295 < (c0 - 33) * 52200625 + (c1 - 33) * 614125 + 614124)%N ->
+  a85_check 0 0%N (pre ++ [c0; c1]) = None.
+Proof.
+  intros Hp H0 H1 HV. apply (check_app_none pre 0 0%N 0 0%N _ Hp).
+  rewrite check_step by assumption. change (Nat.eqb (Nat.modulo (0 + 1) 5) 0) with false. cbv iota.
+  change (Nat.modulo (0 + 1) 5) with 1.
+  rewrite check_step by assumption. change (Nat.eqb (Nat.modulo (1 + 1) 5) 0) with false. cbv iota.
+  change (Nat.modulo (1 + 1) 5) with 2.
+  cbn [a85_check Nat.eqb Nat.ltb Nat.leb Nat.sub pad_value]. unfold u32_max.
+  replace (_ <? _)%N with true by lia. reflexivity.
+Qed.
+
+(* lifted to the transform: the body (between an optional `<~` and the `~>`) fails the check *)
+Theorem a85_check_fails dbg data body :
+  a85_stage data = body ++ [126; 62]%N -> a85_check 0 0%N (strip_start_marker body) = None ->
+  a85_decode dbg data = Err ETransform.
+Proof. intros Hs Hc. unfold a85_decode. rewrite Hs, strip_eod_app, Hc. reflexivity. Qed.
+
+(* legal encodings of whole groups are complete prefixes (ties [complete] to the specification) *)
+Lemma state_group d0 d1 d2 d3 d4 r :
+  (d0 < 85)%N -> (d1 < 85)%N -> (d2 < 85)%N -> (d3 < 85)%N -> (d4 < 85)%N ->
+  (d0 * 52200625 + d1 * 614125 + d2 * 7225 + d3 * 85 + d4 < 4294967296)%N ->
+  a85_state 0 0%N ([33 + d0; 33 + d1; 33 + d2; 33 + d3; 33 + d4]%N ++ r) = a85_state 0 0%N r.
+Proof.
+  intros. cbn [app a85_state].
+  repeat (match goal with
+          | |- context [((33 + ?d =? 122)%N && ?b)] => replace ((33 + d =? 122)%N && b) with false by lia
+          | |- context [((33 <=? 33 + ?d)%N && (33 + ?d <=? 117)%N)] =>
+            replace ((33 <=? 33 + d)%N && (33 + d <=? 117)%N) with true by lia
+          end; cbv zeta;
+          try change (Nat.modulo (0 + 1) 5) with 1; try change (Nat.modulo (1 + 1) 5) with 2;
+          try change (Nat.modulo (2 + 1) 5) with 3; try change (Nat.modulo (3 + 1) 5) with 4;
+          try change (Nat.modulo (4 + 1) 5) with 0; cbn [Nat.eqb]).
+  unfold u32_max. replace (_ <? _)%N with false by lia. reflexivity.
+Qed.
+
+Inductive whole_groups : bytes -> Prop :=
+| wg_nil : whole_groups []
+| wg_group : forall b0 b1 b2 b3 d, (b0 < 256)%N -> (b1 < 256)%N -> (b2 < 256)%N -> (b3 < 256)%N ->
+    whole_groups d -> whole_groups (group5 (word b0 b1 b2 b3) ++ d)
+| wg_z : forall d, whole_groups d -> whole_groups (122%N :: d).
+
+Lemma whole_groups_complete d : whole_groups d -> complete d.
+Proof.
+  unfold complete. induction 1 as [|b0 b1 b2 b3 d B0 B1 B2 B3 _ IH|d _ IH].
+  - reflexivity.
+  - pose proof (word_lt b0 b1 b2 b3 B0 B1 B2 B3) as Hw.
+    destruct (group5_form _ Hw) as [d0 [d1 [d2 [d3 [d4 [-> [[D0 [D1 [D2 [D3 D4]]]] [E _]]]]]]]].
+    rewrite state_group by (try assumption; lia). exact IH.
+  - cbn [a85_state N.eqb Pos.eqb Nat.eqb andb]. exact IH.
+Qed.
